@@ -967,5 +967,12 @@ func (p *Parser) Parse() (Statement, error) {
 	selectStmt.Order = orderStmt
 	selectStmt.GroupBy = groupByStmt
 	err = selectStmt.ValidateFields(checkCtx)
+	if err == nil && len(selectStmt.FieldTypes) == len(selectStmt.Fields) {
+		// The field types were taken before the field names inside the
+		// expressions are resolved, v + 'x' is a string only now
+		for i, field := range selectStmt.Fields {
+			selectStmt.FieldTypes[i] = field.ReturnType()
+		}
+	}
 	return selectStmt, err
 }
